@@ -986,9 +986,9 @@ class UnitQuaternion(Quaternion):
                 # UnitQuaternion(T) T is 4x4 homogeneous transformation matrix
                 self.data = [base.r2q(base.t2r(s))]
 
-            elif isinstance(s, np.ndarray) and s.shape[1] == 4:
+            elif isinstance(s, np.ndarray) and s.ndim == 2 and s.shape[1] == 4:
                 if norm:
-                    self.data = [base.qnorm(x) for x in s]
+                    self.data = [base.unit(x) for x in s]
                 else:
                     self.data = [x for x in s]
 
